@@ -8,8 +8,10 @@ z3 and cvc5 are asked for a path from entry to a normal `return` that violates t
 no path of the (acyclic) graph violates it. A model is a candidate path; it is confirmed by a native scenario
 (/verif/native) before it is reported.
 """
-import re, time
+import os, re, time
 import mir, smt, native
+
+REPO = os.environ.get("VERIF_REPO", "/repo")
 
 
 def normal_blocks(fn):
@@ -1746,6 +1748,189 @@ def run_value_guard(tier, log, seed):
         res.update(status="inconclusive", reason="; ".join(inconcl)[:500])
     elif failures:
         res.update(status="fail", failures=failures, reason=failures[0]["description"][:300])
+    else:
+        res.update(status="pass")
+    return res
+
+
+# ------------------------------------------------------------------------------------------------ C20 (CacheDB read policy)
+def _bool_table_of_state_helper(funcs, callee, n_states):
+    """For an in-crate helper `fn(&AccountState) -> bool` made only of a discriminant switch and constant stores, its truth table."""
+    last = re.sub(r"::<.*?>", "", callee).split("::")[-1]
+    cands = [f for n, fl in funcs.items() for f in fl if n.split("::")[-1] == last and re.search(r"\(_1: &(\w+::)*AccountState\) -> bool", f.text.split("\n")[0])]
+    if len(cands) != 1:
+        return None
+    fn = cands[0]
+    table = []
+    for d in range(n_states):
+        b, env, steps = "bb0", {}, 0
+        while steps < 40:
+            steps += 1
+            blk = fn.blocks[b]
+            for s in blk.stmts:
+                m = re.match(r"^(_\d+) = (.*)$", s)
+                if not m:
+                    continue
+                if m.group(2) == "discriminant((*_1))":
+                    env[m.group(1)] = d
+                elif m.group(2) in ("const true", "const false"):
+                    env[m.group(1)] = 1 if m.group(2).endswith("true") else 0
+                else:
+                    return None
+            t = blk.term or ""
+            if t == "return":
+                break
+            m = re.match(r"^goto -> (bb\d+)$", t)
+            if m:
+                b = m.group(1)
+                continue
+            m = re.match(r"^switchInt\((?:move|copy) (_\d+)\)", t)
+            if m and m.group(1) in env:
+                nxt = None
+                for lab, dst in mir.successors(t):
+                    if lab != "otherwise" and int(lab) == env[m.group(1)]:
+                        nxt = dst
+                if nxt is None:
+                    nxt = dict(mir.successors(t)).get("otherwise")
+                if nxt is None:
+                    return None
+                b = nxt
+                continue
+            return None
+        if "_0" not in env:
+            return None
+        table.append(env["_0"])
+    return table
+
+
+def run_cache_read_policy(tier, log, seed):
+    """CacheDB::storage (Database) and CacheDB::storage_ref (DatabaseRef): on every path, where the returned word comes from - the cached
+    slot, the constant zero, or the wrapped database's storage_ref - is the function of (account cached?, slot cached?, account_state,
+    wrapped account exists?) that keeps the answer equal to the wrapped data plus committed changes; block_hash / block_hash_ref and
+    code_by_hash / code_by_hash_ref: the cached value if present, otherwise the wrapped database's answer."""
+    import mirflow
+    text = mir.dump("revm", log)
+    funcs = mir.parse_functions(text)
+    src = open(os.path.join(REPO, "crates/revm/src/db/in_memory_db.rs")).read()
+    m = re.search(r"pub enum AccountState \{(.*?)\n\}", src, re.S)
+    states = re.findall(r"^\s*([A-Z]\w*),", m.group(1), re.M) if m else []
+    duo = smt.Duo(timeout_s=30)
+    failures, inconcl, samples = [], [], []
+    if states != ["NotExisting", "Touched", "StorageCleared", "None"]:
+        inconcl.append(f"AccountState variants changed: {states}")
+        states = states or ["?"]
+    CACHE, ZERO, INNER, ERR = 11, 12, 13, 14
+    replay_cache = {}
+
+    def replay():
+        if "r" not in replay_cache:
+            replay_cache["r"] = native.call("debug", "cachedb_read_policy", log=log)
+        return replay_cache["r"]
+
+    def analyse(name, impl_rx, inner_rx, map_rx, zero_states, with_info):
+        cands = [f for n, fl in funcs.items() for f in fl if re.search(r"^in_memory_db::<impl at [^>]*>::%s$" % name, n) and re.search(impl_rx, f.text.split("\n")[0])]
+        if len(cands) != 1:
+            inconcl.append(f"CacheDB::{name}: {len(cands)} MIR bodies")
+            return
+        fn = cands[0]
+        rules = [
+            (r"OccupiedEntry::<.*>::get$|^HashMap::<.*>::get::<", f"tag:{CACHE}"),
+            (inner_rx, f"tag:{INNER}"),
+            (r" as Try>::branch$", "arg:0"),
+            (r"from_residual$", f"tag:{ERR}"),
+            (r"as Clone>::clone$|::clone$", "arg:0"),
+            (r"VacantEntry::<.*>::insert$", "arg:1"),
+        ]
+        fl = mirflow.Flow(fn, rules, [(r"^const ruint::Uint::<256, 4>::ZERO$", ZERO)])
+        # helpers over the account state become tables
+        for b in fn.blocks.values():
+            c = mir.call_of(b.term or "")
+            if c and re.search(r"AccountState", c[1]) and not any(re.search(rx, c[1]) for rx, _ in rules):
+                tbl = _bool_table_of_state_helper(funcs, c[1], len(states))
+                if tbl is not None:
+                    fl.call_rules.append((re.escape(c[1]) + "$", "state-table:" + ",".join(map(str, tbl))))
+        try:
+            decls, asserts, cells, order, returns, out = fl.encode()
+        except mir.Unsupported as e:
+            inconcl.append(f"CacheDB::{name}: {e}")
+            return
+        # identify the free variables of the policy
+        acct = slot = info = None
+        occ = {}
+        for b in fn.blocks.values():
+            c = mir.call_of(b.term or "")
+            if not c or not c[0]:
+                continue
+            if re.search(r"^HashMap::<%s>::(entry|get)" % map_rx[0], c[1]):
+                acct = c[0].strip()
+            elif map_rx[1] and re.search(r"^HashMap::<%s>::(entry|get)" % map_rx[1], c[1]):
+                slot = c[0].strip()
+            elif re.search(r"^Option::<AccountInfo>::is_some$", c[1]):
+                info = "r_" + b.name
+        for loc in (acct, slot):
+            if loc:
+                for b in fn.blocks.values():
+                    mm = re.match(r"^switchInt\(move (_\d+)\)", b.term or "")
+                    if mm and f"{mm.group(1)} = discriminant({loc})" in b.stmts:
+                        for lab, dst in mir.successors(b.term):
+                            if lab != "otherwise" and re.search(r"\(%s as (Occupied|Some)\)" % re.escape(loc), " ".join(fn.blocks[dst].stmts)):
+                                occ[loc] = lab
+        st_vars = [n_ for n_, what in fl.notes if what.startswith("discriminant(") and "AccountState" in what]
+        need = [acct and acct in occ] + ([slot and slot in occ, len(st_vars) == 1] if map_rx[1] else []) + ([info is not None] if with_info else [])
+        if not all(need):
+            inconcl.append(f"CacheDB::{name}: policy variables not recognised (acct={acct} slot={slot} occ={occ} state={st_vars} info={info})")
+            return
+        A = f"(= disc_{acct} {occ[acct]})"
+        if map_rx[1]:
+            S = f"(= disc_{slot} {occ[slot]})"
+            stv = st_vars[0]
+            zero = "(or " + " ".join(f"(= {stv} {states.index(z)})" for z in zero_states) + ")"
+            hit = f"(ite {S} {CACHE} (ite {zero} {ZERO} {INNER}))"
+            miss = f"(ite (= {info} 0) {ZERO} {INNER})" if with_info else str(INNER)
+            rng = [f"(>= {stv} 0)", f"(< {stv} {len(states)})"]
+        else:
+            hit, miss, rng = str(CACHE), str(INNER), []
+        expected = f"(ite {A} {hit} {miss})"
+        viol = "(or " + " ".join(f"(and on_{b} (not (= {out('_0', b)} {expected})) (not (= {out('_0', b)} {ERR})))" for b in returns) + ")"
+        # vacuity guard: the encoding must admit a path for every source the policy can name
+        for tg in sorted({CACHE, INNER} | ({ZERO} if map_rx[1] else set())):
+            wq = "(or " + " ".join(f"(and on_{b} (= {out('_0', b)} {tg}))" for b in returns) + ")"
+            wv, _, wd = duo.check(decls, asserts + rng + [wq])
+            if wv != "sat":
+                inconcl.append(f"CacheDB::{name}: vacuity witness for source {tg} is {wv} (the encoding reaches no such path)")
+                return
+        v, model, detail = duo.check(decls, asserts + rng + [viol], want_model_of=[f"on_{b}" for b in order] + [n_ for n_, _ in fl.notes])
+        samples.append(f"CacheDB::{name}: {len(order)} blocks, {len(cells)} cells, free={[n_ for n_, _ in fl.notes]}: a path whose answer does not come from where the policy says: {v}")
+        log(f"[e3] {samples[-1]}")
+        if v == "unsat":
+            return
+        if v != "sat":
+            inconcl.append(f"CacheDB::{name}: {detail}")
+            return
+        path = sorted([b for b in order if re.search(r"\(on_%s true\)" % b, model)], key=lambda x: int(x[2:]))
+        vals = {n_: re.search(r"\(%s (\(- \d+\)|\d+)\)" % n_, model) for n_, _ in fl.notes}
+        vals = {k: (mm.group(1) if mm else "?") for k, mm in vals.items() if k.startswith("disc_") or k == info}
+        st, outp = replay()
+        desc = f"CacheDB::{name}: answer source differs from the read policy on path {'>'.join(path[-7:])} with {vals}"
+        if st == "ok":
+            bad = [t for t in re.findall(r"\[([^\]]*)\]", outp) if t.startswith(name + " ") and "MISMATCH" in t]
+            failures.append(dict(id=f"cachedb-{name}", reproduced=bool(bad), description=desc + f" | native: {bad or 'all scenarios agree'}"))
+        else:
+            inconcl.append(f"CacheDB::{name}: native scenario failed: {st} {outp[:200]}")
+
+    U, ADDR_ACC, B256_ = r"Uint<256, 4>, Uint<256, 4>", r"Address, DbAccount", r"Uint<256, 4>, FixedBytes<32>"
+    analyse("storage", r"\(_1: &mut CacheDB<", r"as (primitives::db::)?DatabaseRef>::storage_ref$", (ADDR_ACC, U), ["NotExisting", "StorageCleared"], True)
+    analyse("storage_ref", r"\(_1: &CacheDB<", r"as (primitives::db::)?DatabaseRef>::storage_ref$", (ADDR_ACC, U), ["NotExisting", "StorageCleared"], False)
+    analyse("block_hash", r"\(_1: &mut CacheDB<", r"as (primitives::db::)?DatabaseRef>::block_hash_ref$", (B256_, None), [], False)
+    analyse("block_hash_ref", r"\(_1: &CacheDB<", r"as (primitives::db::)?DatabaseRef>::block_hash_ref$", (B256_, None), [], False)
+    q, tm = duo.queries, duo.time
+    duo.close()
+    res = dict(queries=q, solver_s=tm, engine="mir provenance-flow -> smtlib (z3 4.8.12 + cvc5 1.0)", bounds="; ".join(samples),
+               detail="tags: 11 cached value, 12 constant zero, 13 wrapped database, 14 error; policy: account cached? slot cached? account_state in {NotExisting, StorageCleared}? wrapped account exists?")
+    if any(f.get("reproduced") for f in failures):
+        res.update(status="fail", failures=failures, reason=failures[0]["description"][:300])
+    elif inconcl or failures:
+        res.update(status="inconclusive", reason="; ".join(inconcl + [f["description"] for f in failures])[:500])
     else:
         res.update(status="pass")
     return res
